@@ -130,7 +130,11 @@ def auto_presets(facts, fn):
                     v = _conv_path(pv.operand(a))
                 except Exception:
                     v = None
-                if v is not None and S.fstr(v).startswith("self."):
+                try:
+                    txt_ = S.fstr(v) if v is not None else None
+                except Exception:
+                    txt_ = None
+                if isinstance(txt_, str) and txt_.startswith("self."):
                     cur[i + 1] = v
             out = cur if out is None else {k: v for k, v in out.items() if cur.get(k) == v}
     return out or {}
